@@ -4,6 +4,15 @@ import json, os
 HERE = os.path.dirname(os.path.dirname(os.path.abspath(__file__)))
 
 CHECKS = {
+ "C01": dict(
+  level="model_checking", ref="5 C01 and notes/C01.md",
+  text="LuaCore.tla is a small-step abstract machine for a core of Lua 5.4 (locals, closures with fresh/shared captured variables, varargs, multiple results and adjustment in "
+       "every list context, multiple assignment, if/while/repeat/numeric and generic for/goto/break/return/tail calls, and/or/not, integer arithmetic with string coercions, "
+       "concatenation, comparisons, tables, method calls, metamethods __index/__newindex/__call/arithmetic/__concat/__eq/__lt/__le/__len/__tostring/__metatable, pcall/error and a "
+       "few basic functions); TLC runs it on generated ASTs (13 sub-grammars enumerated completely with their counts checked against closed forms, plus seeded random programs) "
+       "and emits the expected events/results/error values; each AST is rendered into 2 (quick) / 4 (thorough) source spellings and run on the real scanner, parser, compiler and VM",
+  note="not compared: error wording and line, floats, / ^ and bitwise operators, pairs order, <close>, coroutines (covered by C10/C09), libraries other than the modelled basic functions",
+  technique="TLA+ small-step machine LuaCore.tla evaluated by TLC on generated ASTs; renderings replayed on the real pipeline (direction A, tabular)"),
  "C03": dict(
   level="model_checking", ref="5 C03",
   text="TLC explores TableAbs (a map with normalised keys, alternative float spellings of integer keys, borders, traversals whose body updates or "
